@@ -172,6 +172,42 @@ structure BumpSkel where
 def BumpSkel.run (b : BumpSkel) (next : Nat) : Option (Nat × Nat) :=
   if b.op = .fetchAdd then some (next, next + b.delta) else none
 
+/-! ## `CallPattern::match_inputs` (`src/call_pattern.rs`): a `match` on (matcher present?, reporter given?) -/
+
+inductive MIResult
+  /-- `Ok((downcast_box::<MatchingFn<F>>(f)?.0)(inputs, reporter))` -/
+  | callGiven
+  /-- the same call with `&mut MismatchReporter::new_disabled()` -/
+  | callDisabled
+  /-- `Err(PatternError::NoMatcherFunction)` -/
+  | errNoMatcher
+  | unknown
+  deriving DecidableEq, Repr
+
+/-- one arm: what it demands of the two scrutinee components (`none` = `_`) and what it evaluates to -/
+structure MIArm where
+  matcher : Option Bool
+  reporter : Option Bool
+  res : MIResult
+  deriving DecidableEq, Repr
+
+def MIArm.applies (a : MIArm) (hasMatcher hasReporter : Bool) : Bool :=
+  (a.matcher.all (· == hasMatcher)) && (a.reporter.all (· == hasReporter))
+
+/-- Rust `match`: the first arm whose pattern applies -/
+def miSelect : List MIArm → Bool → Bool → MIResult
+  | [], _, _ => .unknown
+  | a :: rest, m, r => if a.applies m r then a.res else miSelect rest m r
+
+/-- what `match_inputs` yields, given the matcher's own verdict `f` (`none` = the user's matcher panicked);
+    `none` = the interpreter does not know the arm -/
+def miRun (arms : List MIArm) (hasMatcher hasReporter : Bool) (f : Option Bool) : Option R :=
+  match miSelect arms hasMatcher hasReporter with
+  | .callGiven | .callDisabled =>
+    some (match f with | some true => .t | some false => .f | none => .p)
+  | .errNoMatcher => some .e
+  | .unknown => none
+
 /-- classify a pattern's try result the way the closure sees it -/
 def ofTry : Option Try → R
   | none => .f
